@@ -100,6 +100,7 @@ class Engine:
         self.cover: list = []  # (label, pc) reachability samples
         self.max_paths = 4000
         self.binders: list = []
+        self.cond_guards: list = []
         self.cur_contract = None
         self.cur_line = 0
 
@@ -234,6 +235,8 @@ class Engine:
     def safety(self, cond, what: str, line: int):
         if self.spec_mode:
             return  # partial expressions inside contracts denote unspecified values, not obligations
+        if self.cond_guards:
+            cond = z3.Implies(z3.And(*self.cond_guards), cond)
         cond = z3.simplify(cond)
         if z3.is_true(cond):
             return
@@ -397,6 +400,19 @@ class Engine:
         vals = self.w.fresh_sort(z3.ArraySort(self.w.sort(kt), self.w.sort(vt)), "nild")
         return SV(s.constructor(0)(z3.K(self.w.sort(kt), z3.BoolVal(False)), vals), t, fresh=True)
 
+    def _pattern_safe(self, e) -> bool:
+        stack = [e]
+        while stack:
+            x = stack.pop()
+            if z3.is_quantifier(x) or z3.is_var(x):
+                return False
+            if z3.is_app(x) and x.num_args() > 0:
+                if x.decl().kind() not in (z3.Z3_OP_SELECT, z3.Z3_OP_UNINTERPRETED, z3.Z3_OP_DT_ACCESSOR,
+                                           z3.Z3_OP_DT_CONSTRUCTOR):
+                    return False
+                stack.extend(x.children())
+        return True
+
     def dict_order(self, d: SV, sorted_: bool = False):
         """(size, order array, pos fn).  Iteration order is modelled as a fixed but arbitrary function of the KEY SET
         (values may be mutated in place while iterating, adding / removing keys may not)."""
@@ -404,6 +420,19 @@ class Engine:
         _, has, _ = self.dct(d)
         h = has(d.term)
         hs = h.sort()
+        if not self._pattern_safe(h):
+            # store / ite / constant-array terms may not occur in triggers: name the key set
+            names = self.st.__dict__.setdefault("keyset_names", {})
+            if h.get_id() in names and not self.binders:
+                h = names[h.get_id()][0]
+            else:
+                hc = self.w.fresh_sort(hs, "keys")
+                if self.binders and self._mentions_bound(h):
+                    raise Unsupported("dict iteration order of a key set that depends on a bound variable")
+                self.side_fact(hc == h)
+                if not self.binders:
+                    names[h.get_id()] = (hc, h)
+                h = hc
         tag = "s" if sorted_ else ""
         size = self.w.func(f"dsize{tag}<{ks}>", hs, z3.IntSort())(h)
         order = self.w.func(f"dorder{tag}<{ks}>", hs, z3.ArraySort(z3.IntSort(), ks))(h)
@@ -522,7 +551,7 @@ class Engine:
                           fresh=sv.fresh)
             inner = self.coerce(sv, ty.args[0], line)
             return SV(s.constructor(1)(inner.term), ty, fresh=sv.fresh)
-        if a.kind == "opt" and ty.kind != "opaque":
+        if a.kind == "opt" and (ty.kind != "opaque" or a.args[0] == ty):
             sa = self.w.sort(a)
             self.safety(sa.recognizer(1)(sv.term), f"not-None-as-{ty}", line)
             ref = sv.ref.ext(("some",)) if sv.ref else None
